@@ -4,13 +4,14 @@ One symbolic target and one symbolic filesystem are shared by three symbolic exe
 App::handle_request) with method GET / HEAD / OPTIONS.  For every pair of paths that can happen together (z3: the
 conjunction of their path conditions is satisfiable) the responses are compared."""
 from appsweep import *
+from pipeline import split_response, header_name_value, pieces_len, pieces_str
 
 SKIP_HEADERS = (b'date-unix-epoch-nanos',)
 
 
 def plan(t):
     q = t == 'quick'
-    return dict(tlens=(2, 3) if q else (2, 3, 4), entries=['execute', 'legacy'], with_origin=(True,) if q else (True, False), range_=('none',) if q else ('none', 'open'))
+    return dict(tlens=(2, 3) if q else (2, 3, 4), entries=['execute', 'legacy'], with_origin=(True,) if q else (True, False), range_=('none', 'multi') if q else ('none', 'open', 'multi'))
 
 
 def explore(prog, params, method, sy_shared):
@@ -22,6 +23,7 @@ def explore(prog, params, method, sy_shared):
     st, req, sy = build_state(p2, B)
     st.world['fs'] = ENV.new_fs(content_cap=2, shared_names=True)
     outs = run_entry(ex, st, req, params['entry'])
+    sy['_req'] = req
     return ex, outs, sy
 
 
@@ -96,6 +98,8 @@ def case(prog, params):
                     else:
                         for a, b in zip(sg['bodies'], sh['bodies']): checks.append(('HEAD-content-length-differs-from-GET-body', b_not(bv_eq(a.length(), b.length(), LW))))
                         for a, b in zip(sg['ctypes'], sh['ctypes']): checks.append(('HEAD-content-type-differs-from-GET', b_not(a.eq(b))))
+                    # what is put on the wire: Response::generate_response(resp, request) for both, compared line by line
+                    checks += wire_checks(ex, joint, response_of(g.outcome, params['entry']), syg['_req'], response_of(h.outcome, params['entry']), runs['HEAD'][2]['_req'], res)
                 else:
                     st_ = sh['status']
                     checks.append(('OPTIONS-not-a-success-status', b_or(int_binop('Lt', st_, Int('i16', 200)), int_binop('Ge', st_, Int('i16', 300)))))
@@ -120,6 +124,44 @@ def case(prog, params):
     return res
 
 
+def wire_checks(ex, joint, rg, req_g, rh, req_h, res):
+    out = []
+    wires = []
+    for r_, q_ in ((rg, req_g), (rh, req_h)):
+        st = State(); st.pc = list(joint)
+        outs = ex.run_fn('Response::generate_response', [r_, q_], st)
+        rets = [o for o in outs if o.outcome[0] == 'return']
+        for o in outs:
+            if o.outcome[0] == 'stop' and not o.outcome[1].startswith('domain:'): res['inconclusive'].append({'status': o.outcome[1], 'error': str(o.outcome[2])[:200]})
+        wires.append(rets)
+    res['wire_pairs'] = res.get('wire_pairs', 0) + len(wires[0]) * len(wires[1])
+    for og in wires[0]:
+        for oh in wires[1]:
+            extra = [c for c in og.pc if not any(c is d for d in joint)] + [c for c in oh.pc if not any(c is d for d in joint)]
+            sl_g, hl_g, body_g, pr_g = split_response(og.outcome[1]); sl_h, hl_h, body_h, pr_h = split_response(oh.outcome[1])
+            pre = b_and(*[zb(x) for x in extra]) if extra else True
+            def add(label, bad): out.append((label, b_and(pre, bad) if bad is not True else pre))
+            if pr_g or pr_h: add('wire-HEAD-or-GET-head-not-terminated', True); continue
+            add('wire-HEAD-status-line-differs-from-GET', b_not(pieces_str(sl_g).eq(pieces_str(sl_h))))
+            ng = [header_name_value(l)[0] for l in hl_g]; nh = [header_name_value(l)[0] for l in hl_h]
+            if ng != nh: add('wire-HEAD-header-names-differ-from-GET', True)
+            else:
+                for n_, lg, lh in zip(ng, hl_g, hl_h):
+                    if n_ is not None and n_.lower() in SKIP_HEADERS: continue
+                    add('wire-HEAD-header-%s-differs-from-GET' % (n_ or b'?').decode('latin1').lower(), b_not(pieces_str(lg).eq(pieces_str(lh))))
+                cl = [header_name_value(l)[1] for l, n_ in zip(hl_h, nh) if n_ is not None and n_.lower() == b'content-length']
+                if cl:
+                    # decimal text of the GET body length
+                    glen = pieces_len(body_g)
+                    gl = bounds(glen)[1] if not isinstance(glen, int) else glen
+                    if isinstance(glen, int): add('wire-HEAD-content-length-is-not-GET-body-length', b_not(pieces_str(cl[0]).eq(S(str(glen)))))
+                    elif gl is not None and gl < 100:
+                        add('wire-HEAD-content-length-is-not-GET-body-length', b_not(b_or(*[b_and(bv_eq(glen, k, LW), pieces_str(cl[0]).eq(S(str(k)))) for k in range(gl + 1)])))
+            hb = pieces_len(body_h)
+            add('wire-HEAD-response-carries-a-body', b_not(bv_eq(hb, 0, LW)) if not isinstance(hb, int) else hb != 0)
+    return out
+
+
 def native_triplet(chk, w):
     import tempfile, shutil, posixpath
     p = w['params']
@@ -138,7 +180,7 @@ def native_triplet(chk, w):
             except OSError: pass
         out = {}
         for m in ('GET', w['other']):
-            reqb = ('%s %s HTTP/1.1\r\n' % (m, w['target'])).encode('latin1') + (b'Origin: http://o\r\n' if p['origin'] else b'') + (b'Range: bytes=0-\r\n' if p.get('range') == 'open' else b'') + b'\r\n'
+            reqb = ('%s %s HTTP/1.1\r\n' % (m, w['target'])).encode('latin1') + (b'Origin: http://o\r\n' if p['origin'] else b'') + (b'Range: bytes=0-\r\n' if p.get('range') == 'open' else b'Range: bytes=0-0,1-1\r\n' if p.get('range') == 'multi' else b'') + b'\r\n'
             cmd = 'process' if p['entry'] == 'execute' else 'process_request'
             st, o = chk.oracle.run([(cmd, [reqb, len(reqb)])], cwd=root, env={'RWS_CONFIG_CORS_ALLOW_ALL': 'true'})[0]
             raw = o[0] if st == 'ok' and o else b''
@@ -164,6 +206,7 @@ def main():
             for org in P['with_origin']:
                 for rg in P['range_']:
                     for sec in ('dot', 'slash', 'qh', 'alnum', 'other'):
+                        if rg == 'multi' and chk.tier == 'quick' and (sec not in ('alnum', 'slash') or n != P['tlens'][0]): continue
                         cases.append(dict(entry=entry, tlen=n, first='slash', second=sec, origin=org, range=rg))
     results = chk.run_cases(case, cases, label='GET/HEAD/OPTIONS relational sweep')
     chk.extra['GET_paths_serving_a_file'] = sum(r.get('served', 0) for r in results); chk.extra['joint_pairs_checked'] = sum(r.get('pairs', 0) for r in results)
